@@ -78,7 +78,7 @@ impl BytesSerializable for StoreConsumerOffset {
     }
 
     fn from_bytes(bytes: Bytes) -> Result<StoreConsumerOffset, IggyError> {
-        if bytes.len() < 23 {
+        if bytes.len() < 22 {
             return Err(IggyError::InvalidCommand);
         }
 
